@@ -219,6 +219,41 @@ func checkErrorRecording(r *Run, prog *Program, pfx string) {
 	// errList.add appends unconditionally
 	okAdd := len(add.Blocks) == 1
 	r.Check(pfx+".engine", "errList.add-unconditional", prog.pos(add.Pos()), okAdd, "(*errList).add branches: an error may not be appended")
+	// … every entry is looked at: a loop of the error list's methods over its entries is left only when the list is
+	// exhausted (skipping a duplicate is `continue`; a `break` there cuts off what follows — the budget error comes last)
+	for _, mn := range []string{"dedupe", "Error", "err"} {
+		em := prog.Method(prog.GrammarSSA, "errList", mn, false)
+		if em == nil {
+			em = prog.Method(prog.GrammarSSA, "errList", mn, true)
+		}
+		if em == nil || len(em.Blocks) == 0 {
+			continue
+		}
+		for _, h := range em.Blocks {
+			isHeader := false
+			for _, p := range h.Preds {
+				if h.Dominates(p) {
+					isHeader = true
+				}
+			}
+			if !isHeader {
+				continue
+			}
+			lb := loopBlocks(h)
+			okLoopExit := true
+			for b := range lb {
+				if b == h {
+					continue
+				}
+				for _, sx := range b.Succs {
+					if !lb[sx] {
+						okLoopExit = false
+					}
+				}
+			}
+			r.Check(pfx+".engine", fmt.Sprintf("errList.%s-loop-runs-out:b%d", mn, h.Index), prog.pos(em.Pos()), okLoopExit, "a loop of errList."+mn+" over the recorded errors is left from inside its body: entries after that point are never looked at")
+		}
+	}
 	// … and what is on the list is what the list says: the text of one entry alone stands for the whole list only when the
 	// list has that one entry (the budget error is appended last: a rendering that stops early hides it)
 	if em := prog.Method(prog.GrammarSSA, "errList", "Error", false); em != nil && len(em.Params) == 1 {
